@@ -261,6 +261,38 @@ def gen_longref(rng, kind, tier):
     return c
 
 
+def gen_csi_full(rng, tier):
+    """A small CSI geometry in which EVERY bin of a reference holds a record (so the
+    reference has binLimit bins plus the statistics pseudo-bin)."""
+    c = c04gen.gen_case(rng, 'csi', tier, None, small=True)
+    ms, dp = rng.randrange(4, 12), rng.choice([1, 1, 2])
+    c['ms'], c['dp'] = ms, dp
+    recs = []
+    for lvl in range(dp + 1):                       # level 0 = the whole range
+        w = 1 << (ms + 3 * (dp - lvl))              # width of a bin at this level
+        for k in range(8 ** lvl):
+            lo = k * w
+            if lvl == dp:                           # leaf: anywhere inside
+                p = lo + rng.randrange(0, w - 2)
+                recs.append(dict(rid=0, pos=p, end=p + 1))
+            else:                                   # across a child boundary, inside the bin
+                m = lo + (w >> 3) * rng.randrange(1, 8)
+                recs.append(dict(rid=0, pos=m - 1, end=m + 1))
+    recs.sort(key=lambda r: (r['pos'], r['end']))
+    for r in recs:
+        r['placed'], r['mapped'] = True, True
+    for r, (b, e) in zip(recs, c04gen.layout(rng, len(recs))):
+        r['cb'], r['ce'] = b, e
+    c['recs'] = recs
+    c['nref'] = 1
+    c.pop('hist', None)
+    hi = (1 << (ms + 3 * dp)) - 1
+    c['queries'] = [[0, r['pos'], min(hi + 1, r['end'] + rng.randrange(0, 1 << ms))] for r in rng.sample(recs, min(6, len(recs)))]
+    c['strat'] = 'adjacent'
+    c['wellformed'], c['mono'], c['flavour'] = True, True, 'allbins'
+    return c
+
+
 def gen_cases(rng, tier):
     per = 20 if tier == 'quick' else 250
     cases = c04.corpus_cases() + corpus_cases()
@@ -284,6 +316,8 @@ def gen_cases(rng, tier):
             c['flavour'] = 'emptyname'
             cases.append(c)
             k += 1
+    for _ in range(3 if tier == 'quick' else 30):
+        cases.append(gen_csi_full(rng, tier))
     nf = 9 if tier == 'quick' else 120
     for kind in ('bai', 'csi', 'tabix'):
         for _ in range(nf):
